@@ -69,7 +69,9 @@ func histDigest(body func(t *rapid.T, r *Rec)) string {
 	tb.Quiet = true
 	var b strings.Builder
 	for sd := uint64(1); sd <= 8; sd++ {
-		o, _ := runWith(body, func(prop func(*rapid.T)) rapid.VerifResult { return rapid.VerifRunSeed(tb, sd*0x9e3779b97f4a7c15, false, prop) })
+		o, _ := runWith(body, func(prop func(*rapid.T)) rapid.VerifResult {
+			return rapid.VerifRunSeed(tb, sd*0x9e3779b97f4a7c15, false, prop)
+		})
 		fmt.Fprintf(&b, "%d:%s;", o.res.Kind, o.draws)
 	}
 	for _, w := range [][]uint64{make([]uint64, 64), ones(64)} {
